@@ -201,6 +201,10 @@ static void gen_print_orc (const ProgSpec *ps, VhBuf *b, const GenPrintStyle *st
   int i, k;
 #define MAYBE_NOISE() do { if (r && st->comments && vh_chance (r, 1, 5)) vh_buf_printf (b, "# comment %u%s", vh_randn (r, 1000), nl); \
     if (r && st->blank_lines && vh_chance (r, 1, 5)) vh_buf_printf (b, "%s", nl); } while (0)
+  /* spacing noise at the ends of lines: blanks (also two or more) before the line end, with or without a trailing comment; blanks before the first token */
+#define EOL() do { if (r && st->comments) { unsigned z_ = vh_randn (r, 8); if (z_ < 3) { unsigned k_ = 1 + vh_randn (r, 3); while (k_--) vh_buf_printf (b, "%s", vh_chance (r, 1, 4) ? "\t" : " "); } \
+      else if (z_ == 3) vh_buf_printf (b, "  # c%u", vh_randn (r, 100)); } vh_buf_printf (b, "%s", nl); } while (0)
+#define BOL() do { if (r && st->comments && vh_chance (r, 1, 6)) vh_buf_printf (b, "%s", vh_chance (r, 1, 2) ? "  " : "\t"); } while (0)
   vh_buf_printf (b, ".function%s%s%s", sp, ps->name, nl);
   if (ps->is2d) vh_buf_printf (b, ".flags%s2d%s", sp, nl);
   if (ps->const_n) vh_buf_printf (b, ".n%s%d%s", sp, ps->const_n, nl);
@@ -211,6 +215,7 @@ static void gen_print_orc (const ProgSpec *ps, VhBuf *b, const GenPrintStyle *st
   for (i = 0; i < ps->nvars; i++) {
     const PVar *v = &ps->vars[i];
     MAYBE_NOISE ();
+    if (!(st->inline_consts && v->kind == VK_CONST)) BOL ();
     switch (v->kind) {
       case VK_DEST:
         vh_buf_printf (b, ".dest%s%d%s%s", sp, v->size, sp, v->name);
@@ -232,13 +237,14 @@ static void gen_print_orc (const ProgSpec *ps, VhBuf *b, const GenPrintStyle *st
         break;
       case VK_TEMP: vh_buf_printf (b, ".temp%s%d%s%s", sp, v->size, sp, v->name); break;
     }
-    vh_buf_printf (b, "%s", nl);
+    EOL ();
   }
   for (i = 0; i < ps->ninsns; i++) {
     const PInsn *in = &ps->insns[i];
     const RefOp *op = gen_op (in);
     int first = 1;
     MAYBE_NOISE ();
+    BOL ();
     if (in->mult > 1) vh_buf_printf (b, "x%d%s", in->mult, sp);
     vh_buf_printf (b, "%s%s", op->name, sp);
     for (k = 0; k < 2; k++) if (op->dsz[k]) {
@@ -252,9 +258,11 @@ static void gen_print_orc (const ProgSpec *ps, VhBuf *b, const GenPrintStyle *st
       vh_buf_printf (b, "%s%s", first ? "" : (st->spaces_after_comma ? ", " : ","), in->src[k] >= 0 ? ps->vars[in->src[k]].name : "?");
       first = 0;
     }
-    vh_buf_printf (b, "%s", nl);
+    EOL ();
   }
 #undef MAYBE_NOISE
+#undef EOL
+#undef BOL
 }
 
 /* JSON description for replay/evidence */
